@@ -526,14 +526,14 @@ func Main(prop string) {
 				stranded := s.Drain(rng.Intn)
 				s.Close()
 				nenum++
-				report(Scenario{Family: "enum:" + b.Family, Plan: b.Plan, DrainSeed: uint64(k*31+ii) - 17}, s, stranded, c.Thorough() || nenum%4 == 0)
+				report(Scenario{Family: "enum:" + b.Family, Plan: b.Plan, DrainSeed: uint64(k*31+ii) - 17}, s, stranded, (c.Thorough() && nenum%2 == 0) || nenum%4 == 0)
 			}
 		}
 	}
-	n := c.N(1500, 40000)
+	n := c.N(1500, 12000)
 	for i := 0; i < n && StuckTotal < 3; i++ {
 		s, stranded, sc := randomRun(c.Rng.Fork())
-		report(sc, s, stranded, i < c.N(200, 6000))
+		report(sc, s, stranded, i < c.N(200, 1500))
 	}
 	if StuckTotal >= 3 {
 		c.Note("generation stopped early: 3 goroutines never reached their next scheduling point")
